@@ -341,7 +341,8 @@ pub fn control_depends_on_data(c: &SemCase, flags: &[bool]) -> bool {
 }
 
 pub fn gen_c07_case(t: &mut Tape) -> SemCase {
-    gen_sem_case(t, SemOpts { components: true, data_params: true, ..Default::default() })
+    let late = t.chance(70);
+    gen_sem_case(t, SemOpts { components: true, data_params: true, late_facts: late, ..Default::default() })
 }
 
 /// Four runs on a random line; None if the control flow differs (must not happen) or nothing ran.
